@@ -7,7 +7,7 @@ from engine import guards as G
 from engine import mir
 from . import common as K
 from .common import A, fshort
-from . import C03, C04, C05, C06, C08, C09
+from . import C03, C04, C05, C06, C07, C08, C09
 
 EXPLANATION = (
     "Agreement itself (all Byzantine behaviours x schedules x stake distributions) is a protocol-level model-checking / proof "
@@ -123,3 +123,8 @@ def check(run):
     C06.ob_s2n_table(run, "O1.7a")
     C06.ob_safe_to_skip(run, "O1.7b")
     C06.ob_s2n_events(run, "O1.7c")
+    # "all finalized blocks lie on one chain": which parents may be built on (parent-ready), and how finality propagates to ancestors
+    C07.check(run, prefix="O1.8")
+    C08.ob_no_downgrade(run, "O1.9a")
+    C08.ob_implicit_sources(run, "O1.9b")
+    C08.ob_status_reporting(run, "O1.9c")
